@@ -114,11 +114,13 @@ def helper_case(chk, e):
 class Coupled:
     """a coupled flow-body run built from fresh objects (never cached)."""
 
-    def __init__(self, kind, rng_seed):
+    def __init__(self, kind, rng_seed, order="interact_first"):
         import elastica as ea
         import sopht.simulator as sps
 
         self.kind = kind
+        self.order = order       # "interact_first": evaluate, flow step, forcing step;  "step_first" (the examples' loop, MainLoop.tla):
+        #                          forcing step with the mismatch of the previous iteration, evaluate, flow step
         rng = np.random.default_rng(rng_seed)
         if kind == "2d":
             self.shape, self.h = (24, 28), 0.125
@@ -163,9 +165,14 @@ class Coupled:
                 a = getattr(self.inter, name)
                 a[...] = poison_rng.normal(size=a.shape) * 1e3
             self.inter.nearest_eul_grid_index_to_lag_grid[...] = 3
-        self.inter()
-        self.sim.time_step(dt=self.dt, free_stream_velocity=self.U)
-        self.inter.time_step(dt=self.dt)
+        if self.order == "step_first":
+            self.inter.time_step(dt=self.dt)
+            self.inter()
+            self.sim.time_step(dt=self.dt, free_stream_velocity=self.U)
+        else:
+            self.inter()
+            self.sim.time_step(dt=self.dt, free_stream_velocity=self.U)
+            self.inter.time_step(dt=self.dt)
         # prescribed body motion (the harness plays the structural solver): translation AND rotation of every director frame
         from .c09 import rodrigues
 
@@ -217,8 +224,8 @@ def close(a, b, tol):
     return None
 
 
-def crash_restore(chk, kind, K, seed):
-    ref = Coupled(kind, seed)
+def crash_restore(chk, kind, K, seed, order="interact_first"):
+    ref = Coupled(kind, seed, order)
     traj = [ref.public()]
     d = tempfile.mkdtemp(prefix="ckpt_")
     cwd = os.getcwd()
@@ -231,7 +238,7 @@ def crash_restore(chk, kind, K, seed):
         ref.save(K)
         # same construction, scratch garbage before every step: bit-identical
         rng = np.random.default_rng(seed + 99)
-        dup = Coupled(kind, seed)
+        dup = Coupled(kind, seed, order)
         for k in range(K):
             dup.step(poison_rng=rng)
             p = dup.public()
@@ -244,7 +251,7 @@ def crash_restore(chk, kind, K, seed):
                     chk.violation({"kind": "hidden_state", "run": kind}, f"{kind} run with garbage in all scratch before step {k + 1}: {err}")
         # crash at every step index k, restore into fresh objects, continue
         for k in range(0, K + 1):
-            fresh = Coupled(kind, seed + 1000 + k)  # different initial contents everywhere: everything must come from the checkpoint
+            fresh = Coupled(kind, seed + 1000 + k, order)  # different initial contents everywhere: everything must come from the checkpoint
             fresh.load(k)
             flowstep.poison_scratch(fresh.sim, np.random.default_rng(k))
             p = fresh.public()
@@ -260,9 +267,9 @@ def crash_restore(chk, kind, K, seed):
                 if err:
                     err = f"resumed at step {k}, after step {j + 1}: {err}"
             chk.traces += 1
-            chk.count(("crash", kind, k, seed))
+            chk.count(("crash", kind, order, k, seed))
             if err:
-                chk.violation({"kind": "resume", "run": kind, "k": k}, f"{kind} coupled run: {err}")
+                chk.violation({"kind": "resume", "run": kind, "k": k}, f"{kind} coupled run (loop order {order}): {err}")
     finally:
         os.chdir(cwd)
         shutil.rmtree(d, ignore_errors=True)
@@ -302,7 +309,10 @@ def run(chk: core.Check):
     K = 3 if quick else 4
     for kind in ("2d", "3d"):
         for s in range(1 if quick else 3):
-            crash_restore(chk, kind, K, chk.seed + s)
+            # both loop orders in use: the 2-D run in the examples' order in the quick tier, every combination in the thorough tier
+            orders = (("step_first",) if kind == "2d" else ("interact_first",)) if quick else ("interact_first", "step_first")
+            for order in orders:
+                crash_restore(chk, kind, K, chk.seed + s, order)
     chk.assumptions += [
         "file times are 10 x index; body time ranges over those values and one other; stray files whose names do not end in an integer "
         "are outside the helper's contract",
